@@ -58,9 +58,13 @@ def handle (op : String) (j : Json) : Option (Except String Json) :=
       .ok (J.ofOp (C05.bkLadder tol (← nat j "n") (← nat j "index") (← nat j "action")))
   | "c05.majorana_factor" => some do .ok (J.ofOp (C05.bkMajFactor (← nat j "n") (← nat j "m")))
   | "c05.fermion" => some do .ok (J.ofOp (C05.bkFermion tol (← nat j "n") (← J.op (← J.field j "A"))))
+  | "c05.fermion_ok" => some do .ok (Json.bool (C05.bkFermionOk tol (← nat j "n") (← J.op (← J.field j "A"))))
   | "c05.majorana" => some do
       let A ← J.op (← J.field j "A")
       .ok (J.ofOp (C05.bkMajorana tol (← nat j "n") (A.map fun (t, c) => (t.map (·.1), c))))
+  | "c05.majorana_ok" => some do
+      let A ← J.op (← J.field j "A")
+      .ok (Json.bool (C05.bkMajoranaOk tol (← nat j "n") (A.map fun (t, c) => (t.map (·.1), c))))
   | "c05.tree" => some do .ok (J.ofOp (C05.bkTreeFermion tol (← nat j "n") (← J.op (← J.field j "A"))))
   | "c05.tree_sets" => some do
       let n ← nat j "n"; let i ← nat j "index"
